@@ -3,7 +3,7 @@ import json, os, random
 import vlib
 
 PROP = "C16"
-MODES = ["const0", "const1", "alt", "step", "onehot", "heavy", "halves", "periodic", "bias", "runsbias", "uni"]
+MODES = ["const0", "const1", "alt", "step", "onehot", "heavy", "halves", "periodic", "dombyte", "bias", "runsbias", "uni"]
 
 
 def run(tier):
